@@ -675,6 +675,18 @@ func run(r *vt.Run, t vt.TB, s spec) {
 				h9.Close()
 				r.Count("handles-opened-under-a-live-spilled-transaction", 1)
 			}
+			// ... and the files as somebody froze them after the crash: no write
+			// permission for anybody (an archive, a read-only mount). Who may
+			// write now says nothing about what a writer left behind before.
+			j10 := filepath.Join(dir, "j.sqlite")
+			sqdb.Remove(j10)
+			copyFile(work, j10)
+			if jerr == nil {
+				copyFile(work+"-journal", j10+"-journal")
+			}
+			os.Chmod(j10, []os.FileMode{0o444, 0o400}[k%2])
+			got10, gerr10 := readAllSqlittle(j10)
+			os.Chmod(j10, 0o644)
 			if got8 != nil {
 				// (judged like the others below, but only when it delivered data)
 				bad := len(got8) != len(want)
@@ -697,7 +709,8 @@ func run(r *vt.Run, t vt.TB, s spec) {
 			}
 			for _, ob := range []observer{{"fresh handle", got, gerr}, {"handle opened before the crash", got2, gerr2}, {"fresh handle while another process holds a read lock", got3, gerr3}, {"handle opened before the crash and not used until after it", got4, gerr4},
 				{"fresh handle opened through a symbolic link to the database file", got5, gerr5}, {"handle opened by a relative name, working directory changed before the read", got6, gerr6},
-				{"fresh handle opened by a name leading through a symbolic link to a directory and ..", got7, gerr7}, {"handle opened while a living connection had a spilled write transaction open (since rolled back); another process holds a read lock now", got9, gerr9}} {
+				{"fresh handle opened by a name leading through a symbolic link to a directory and ..", got7, gerr7}, {"handle opened while a living connection had a spilled write transaction open (since rolled back); another process holds a read lock now", got9, gerr9},
+				{"fresh handle on the files with every write permission bit of the database file removed", got10, gerr10}} {
 				if ob.got == nil && ob.err == nil {
 					continue // (that handle could not be opened at the time)
 				}
